@@ -73,3 +73,75 @@ func replaySearch(p *Prog, o *Obligation, id string) map[string]interface{} {
 	_ = fmt.Sprint
 	return res
 }
+
+// ---------- bounded stand-ins ----------
+
+type standin struct {
+	Prop, Pkg, Test, Tier, Bound string
+}
+
+func loadStandins() []standin {
+	var out []standin
+	for _, l := range readLines(filepath.Join(verifDir, "replay", "standins.tsv")) {
+		f := strings.Split(l, "\t")
+		if len(f) >= 5 {
+			out = append(out, standin{f[0], f[1], f[2], f[3], f[4]})
+		}
+	}
+	return out
+}
+
+// runStandin runs one harness test on the real functions of the current tree (overlay injection).
+func runStandin(p *Prog, sd standin) map[string]interface{} {
+	pk, ok := p.Pkgs[sd.Pkg]
+	res := map[string]interface{}{"test": sd.Test, "package": sd.Pkg, "bound": sd.Bound, "kind": "bounded stand-in (not a proof)"}
+	if !ok || len(pk.GoFiles) == 0 {
+		res["passed"] = false
+		res["error"] = "package not found"
+		return res
+	}
+	dir := filepath.Dir(pk.GoFiles[0])
+	h := filepath.Join(verifDir, "replay", sd.Pkg+".go.txt")
+	tmp, err := os.MkdirTemp("/var/tmp", "vfstand.")
+	if err != nil {
+		res["passed"] = false
+		return res
+	}
+	defer os.RemoveAll(tmp)
+	ov := map[string]map[string]string{"Replace": {filepath.Join(dir, "zz_vfreplay_test.go"): h}}
+	b, _ := json.Marshal(ov)
+	ovPath := filepath.Join(tmp, "ov.json")
+	os.WriteFile(ovPath, b, 0o644)
+	ctx, cancel := context.WithTimeout(context.Background(), 300*time.Second)
+	defer cancel()
+	t0 := time.Now()
+	cmd := exec.CommandContext(ctx, "go", "test", "-v", "-overlay", ovPath, "-vet=off", "-count=1", "-timeout", "280s", "-run", "^"+sd.Test+"$", ".")
+	cmd.Dir = dir
+	cmd.Env = append(os.Environ(), "GOFLAGS=-mod=mod", "GOPROXY=off", "GOSUMDB=off", "GOTOOLCHAIN=local")
+	out, runErr := cmd.CombinedOutput()
+	res["seconds"] = time.Since(t0).Seconds()
+	res["command"] = strings.Join(cmd.Args, " ") + "   (cwd " + dir + ")"
+	var fails []string
+	cases := 0
+	for _, l := range strings.Split(string(out), "\n") {
+		if i := strings.Index(l, "VF-FAIL:"); i >= 0 && len(fails) < 5 {
+			fails = append(fails, strings.TrimSpace(l[i+8:]))
+		}
+		if i := strings.Index(l, "VF-CASES:"); i >= 0 {
+			fmt.Sscanf(strings.TrimSpace(l[i+9:]), "%d", &cases)
+		}
+	}
+	res["cases"] = cases
+	res["passed"] = runErr == nil && len(fails) == 0 && strings.Contains(string(out), "ok")
+	if len(fails) > 0 {
+		res["failing_inputs"] = fails
+	}
+	if runErr != nil && len(fails) == 0 {
+		o := string(out)
+		if len(o) > 2000 {
+			o = o[len(o)-2000:]
+		}
+		res["output"] = o
+	}
+	return res
+}
